@@ -181,6 +181,14 @@ class Gating:
             for e in g.true_edges:
                 if f.edge_dominates(e, block):
                     return True, f"dominated by the flag-set edge of the {g.flag} gate at {g.where}"
+        # value-carried gate: `let x = if gate { Some(..) } else { None }; if let Some(..) = x { construct }` — no path reaches the
+        # construct without having seen a flag test succeed (path-sensitive, constants and enum variants propagated)
+        dests = [g.term["dest"]["l"] for g in self.by_func.get(f.key, []) if flag_implies(g.flag, flag) and g.term.get("k") == "call"
+                 and not g.term["dest"]["p"]]
+        if dests:
+            from cfgq import path_without_success
+            if path_without_success(f, block, dests) is None:
+                return True, "every path to it has seen the flag test succeed (value-carried gate)"
         if f.is_closure():
             # then-closure of a gate of the right flag
             for gs in self.by_func.values():
